@@ -1,7 +1,7 @@
 #!/usr/bin/env python3
 """Development tool: mechanical behaviour-preserving renamings (sa/renames.py), to measure false alarms / analysis errors.
 
-usage: rename_sweep.py KIND [-j N] [--only SUBSTR] [--keep]      (KIND = locals | params | params_private | private | attrs | all)
+usage: rename_sweep.py KIND [-j N] [--only SUBSTR] [--keep]      (KIND = locals | params | params_private | private | attrs | all | swap_if | flip_cmp | ret_tmp | test_tmp | reshape)
 Every registered quick check is run with --root <variant>; anything but silence (exit 0) is printed.
 """
 import os, shutil, subprocess, sys, tempfile, concurrent.futures as cf
@@ -28,7 +28,7 @@ def variant(kind, key, all_kw, keep=False):
     root = os.path.join(tmp, "repo")
     try:
         copy_tree(root)
-        n = renames.apply(root, kind, key, all_kw)
+        n = renames.apply_reshape(root, kind, key) if kind in renames.RESHAPES else renames.apply(root, kind, key, all_kw)
         if n == 0:
             return kind, key, 0, None
         return kind, key, n, run_checks(root)
@@ -47,6 +47,8 @@ def main():
     keep = "--keep" in args
     all_kw = renames.keyword_names("/repo")
     work = [w for w in renames.variants("/repo") if kind in ("all", w[0])]
+    if kind in renames.RESHAPES or kind == "reshape":
+        work = [w for w in renames.reshape_variants("/repo") if kind in ("reshape", w[0])]
     if kind == "params_private":
         work = [("params_private", k) for (kd, k) in renames.variants("/repo") if kd == "params"]
     if only:
